@@ -9,4 +9,19 @@ TABLE = {
         "note": _NOTE + " Kernel behaviour of tcsetattr is out of scope.",
         "technique": "pairing / lexical-protection rule over try-finally + alias and mutation discipline of the saved attribute list (ast, CFG may-raise model)",
     },
+    "C14": {
+        "text": "Lock discipline the mutual-exclusion argument rests on: the lock_tty wrapper takes the module-global _tty_lock twice around the call, "
+                "every terminal I/O primitive on _tty_fd sits in a lock_tty-decorated function, the lock is rebound only by the two Process wrappers "
+                "(under the old lock, to a re-entrant process-shared lock), the child always receives it, and the urwid screen's I/O overrides are decorated. "
+                "A statement over all call sites, not over schedules.",
+        "note": _NOTE + " Mutual exclusion under every interleaving and the Process.start race are NOT decided (schedule exploration is a different technique family).",
+        "technique": "who-may-call / who-may-write rules over resolved decorators and globals, definite-assignment on the CFG of the Process wrappers",
+    },
+    "C15": {
+        "text": "Invalidation obligations: every writer of a setting the cell-size cache depends on resets the cache under its lock on all normal paths; every "
+                "query-derived memo (decorator-based or hand-rolled, found through the call graph to query_terminal) is invalidated by enable_queries(); memo "
+                "decorators do lookup+call+store under one RLock; get_cell_size stores under the key it compared on every computing path; FIXED snapshots, DYNAMIC recomputes.",
+        "note": _NOTE + " Values after a concrete resize history are runtime data and are not decided. Three recorded known findings (K5).",
+        "technique": "must-pass-through on the CFG (toggle -> cache reset), call-graph reachability to query_terminal for memo discovery, lock-scope containment",
+    },
 }
